@@ -480,7 +480,49 @@ func (c *Ctx) afterCheckedPeek(in ssa.Instruction, peek, ppeek, getTok *ssa.Func
 		}
 	})
 	if best == nil {
-		return false
+		// the peek may be taken by one of several sibling branches (a yielding and a non-yielding
+		// look-ahead chosen by a flag): every path from the entry to `in` passes a checked peek
+		peekBlocks := map[*ssa.BasicBlock]bool{}
+		eachInstr(f, func(b *ssa.BasicBlock, i int, x ssa.Instruction) {
+			ci, ok := x.(ssa.CallInstruction)
+			if !ok {
+				return
+			}
+			cal := ci.Common().StaticCallee()
+			if cal == nil || (cal != peek && cal != ppeek) {
+				return
+			}
+			e, has := errorValueOf(ci)
+			if !has || e == nil {
+				return
+			}
+			if cons, _ := errConsumed(e, map[ssa.Value]bool{}); cons {
+				peekBlocks[b] = true
+			}
+		})
+		if len(peekBlocks) < 2 || len(f.Blocks) == 0 || peekBlocks[in.Block()] {
+			return false
+		}
+		reach := reachableAvoiding(f.Blocks[0], func(b *ssa.BasicBlock) bool { return peekBlocks[b] })
+		if reach[in.Block()] {
+			return false
+		}
+		// no other GetNextToken between the peeks and in
+		other := false
+		for pb := range peekBlocks {
+			between := reachableAvoiding(pb, func(b *ssa.BasicBlock) bool { return b == in.Block() })
+			for b := range between {
+				if b == pb {
+					continue
+				}
+				for _, x := range b.Instrs {
+					if ci, ok := x.(ssa.CallInstruction); ok && x != in && ci.Common().StaticCallee() == getTok && blockReaches(b, in.Block()) {
+						other = true
+					}
+				}
+			}
+		}
+		return !other
 	}
 	// no other GetNextToken strictly between best and in on the dominator chain
 	bad := false
